@@ -626,6 +626,78 @@ def edge_combination_docs(t):
     return docs
 
 
+# (7) the pretty-printing back end on whole texts: every document of (5) and every query of (6), the C05 constructs and every
+# statement form, through PrettyPrinter (XML reader, whole XTA, property syntax), sanitized build
+def pretty_items(t):
+    sys.path.insert(0, os.path.dirname(os.path.abspath(__file__)))
+    import c03
+    import c05
+    import modelgen as MG
+    items = []
+    for lab_, doc, kind in semantic_docs(t) + dynamic_docs(t) + edge_combination_docs(t) + initialiser_docs(t)[::7]:
+        if kind in ("xml", "xmlq"):
+            items.append(("pretty:" + lab_, {"op": "block", "mode": "pretty-xml", "tpl": doc.replace("</nta>", "\x01</nta>", 1), "text": ""}))
+        else:
+            items.append(("pretty:" + lab_, {"op": "block", "mode": "block", "builder": "pretty", "part": 0, "newxta": kind != "xta-old", "text": doc}))
+    for e in c05.EXTRAS:
+        m = c05.with_extras([e])
+        items.append(("pretty:extra-xml:" + e[1][:30], {"op": "block", "mode": "pretty-xml", "tpl": MG.render_xml(m).replace("</nta>", "\x01</nta>", 1), "text": ""}))
+        items.append(("pretty:extra-xta:" + e[1][:30], {"op": "block", "mode": "block", "builder": "pretty", "part": 0, "text": MG.render_xta(m)}))
+    m = c05.with_extras(c05.EXTRAS)
+    items.append(("pretty:all-extras-xta", {"op": "block", "mode": "block", "builder": "pretty", "part": 0, "text": MG.render_xta(m)}))
+    stmts = ["i = 1;", "if (i) j = 1;", "if (i) j = 1; else j = 2;", "if (i) { } else { if (j) i = 0; }", "for (i = 0; i < 2; i++) j += i;", "for (q : int[0,1]) j = q;",
+             "while (i < 2) i++;", "do { i--; } while (i > 0);", "{ int q = 1; { int r = q; j = r; } }", "return;", ";", "assert(i == 0);", "break;", "continue;",
+             "i = j ? 1 : 2;", "i = (j, 3);", "arr[0] = i++ + --j;", "s.f = fn(i);", "j = forall (q : int[0,1]) arr[q] > 0;", "j = sum (q : int[0,1]) arr[q];",
+             "for (;;) { }", "while (1) ;", "if (i) if (j) i = 1; else i = 2;", "int q[2] = { 1, 2 }; i = q[1];", "typedef int[0,1] lt; lt v = 1;"]
+    for st in stmts:
+        for wrap in ("void f0() { %s }", "int f0(int a, int &b) { %s return a; }", "void f0() { if (i) { %s } else { %s } }", "void f0() { for (q9 : int[0,1]) { %s } }"):
+            body = wrap.replace("%s", st)
+            items.append(("pretty:statement:" + st[:30], {"op": "block", "mode": "block", "builder": "pretty", "part": 1, "text": PS.GDECL + body}))
+            items.append(("pretty:statement-old:" + st[:30], {"op": "block", "mode": "block", "builder": "pretty", "part": 1, "newxta": False, "text": "int i; int j; " + body}))
+    for fid, tpl in c03.query_forms():
+        ps = c03.BOOLS if "{p}" in tpl else [None]
+        ns = c03.NUMS if "{n}" in tpl else [None]
+        for p_ in ps:
+            for n_ in ns:
+                items.append(("pretty:query:" + fid, {"op": "block", "mode": "block", "builder": "pretty", "part": 14,
+                                                      "text": tpl.format(p=p_, q="q", n=n_, m="b")}))
+    for lab_, q in ill_queries()[1]:
+        items.append(("pretty:" + lab_, {"op": "block", "mode": "block", "builder": "pretty", "part": 14, "text": q}))
+    import dynspace as DS
+    for q in DS.dynamic_items()[1]:
+        items.append(("pretty:dynamic-query", {"op": "block", "mode": "block", "builder": "pretty", "part": 14, "text": q}))
+    for e in DS.dynamic_items()[0]:
+        items.append(("pretty:dynamic-expression", {"op": "block", "mode": "block", "builder": "pretty", "part": 12, "text": e}))
+    return items
+
+
+def pretty_shard(arg):
+    t, i, n = arg
+    part = engine.Part()
+    w = engine.worker("san")
+    for k, (lab_, req) in enumerate(pretty_items(t)):
+        if k % n != i:
+            continue
+        part.count()
+        part.nontrivial_case(lab_ + ":" + str(k))
+        r = w.call_safe(req, timeout=60)
+        cls = ":".join(lab_.split(":")[:2])
+        if r.get("died"):
+            sig = engine.crash_signature(r)
+            part.outcome("crash")
+            part.violation("crash:%s:%s" % (sig, cls), "%s: %s: %s" % (lab_, sig, (r.get("stderr") or "")[-300:].replace("\n", " | ")), req)
+        elif engine.sanitizer_hit(r):
+            part.outcome("sanitizer-report")
+            part.violation("san:%s:%s" % (engine.crash_signature(r), cls), "%s: %s" % (lab_, (r.get("stderr") or "")[:300].replace("\n", " | ")), req)
+        elif "harness_error" in r:
+            raise RuntimeError(r["harness_error"])
+        elif r.get("exc") is not None and r.get("std") is False:
+            part.violation("nonstd-exception:%s:%s" % (r["exc"], cls), "%s ends in %s" % (lab_, r["exc"]), req)
+        else:
+            part.outcome("pretty:" + ("std-exception" if r.get("exc") else "returned"))
+    return part.result()
+
+
 def semantic_shard(arg):
     t, i, n = arg
     part = engine.Part()
@@ -778,6 +850,8 @@ def main():
         rep.merge(res)
     for res in engine.pmap(ill_query_shard, [(i, 2 * n) for i in range(2 * n)]):
         rep.merge(res)
+    for res in engine.pmap(pretty_shard, [(t, i, 4 * n) for i in range(4 * n)]):
+        rep.merge(res)
     sizes = [10, 100, 1000, 5000, 10000] if t == "quick" else [10, 100, 1000, 10000, 30000, 100000]
     for res in engine.pmap(growth_shard, [(name, sizes) for name in growth_families()]):
         rep.merge(res)
@@ -801,8 +875,10 @@ def main():
                 "list of up to 3 (thorough: 4) elements (positional, named known / repeated / unknown field, nested, wrong type) for records "
                 "of 1-3 fields and for arrays, and 396 combinations of synchronisation kind x guard kind x controllability x target invariant, sanitized build. (6) %d ill-typed queries: every query form with one operand slot or the bound "
                 "filled by an operand of the wrong kind (channel, clock, array, record, side effect, string, function, process, unknown, "
-                "formula, ...), through parseProperty with the TIGA builder and the property type checker, sanitized build."
-                % (len(cfgs), len(growth_families()), sizes, len(length_docs(t)), len(semantic_docs(t)) + len(dynamic_docs(t)) + len(initialiser_docs(t)) + len(edge_combination_docs(t)), len(ill_queries()[1])))
+                "formula, ...), through parseProperty with the TIGA builder and the property type checker, sanitized build. (7) %d whole texts "
+                "through the pretty-printing back end (every document of (5), every query of (6) and of the C03 forms, the C05 constructs, "
+                "25 statement forms in 4 surroundings and both syntaxes, the dynamic-template expressions and queries)."
+                % (len(cfgs), len(growth_families()), sizes, len(length_docs(t)), len(semantic_docs(t)) + len(dynamic_docs(t)) + len(initialiser_docs(t)) + len(edge_combination_docs(t)), len(ill_queries()[1]), len(pretty_items(t))))
     rep.nontrivial_count = states + len(xml_docs(t))
     rep.assumptions = ["digest pruning is sound if the digest covers everything later callbacks read (argued in DESIGN.md §3/C01); the "
                        "'shape' digest runs are heuristic and are not counted as exhaustive",
